@@ -106,15 +106,62 @@ func checkTruncator(c *Ctx, rule string, tf *ssa.Function) {
 		}
 		return false
 	}
-	fits := core.AnyFact(func(f core.Fact) bool {
+	// the same test kept as a remaining budget: remaining starts as the budget and the test is
+	// len(rec) + overhead <= remaining
+	isCost := func(v ssa.Value) bool {
+		atoms := sumAtoms(v)
+		if len(atoms) != 2 {
+			return false
+		}
+		l, o := false, false
+		for _, a := range atoms {
+			if core.IsLenOf(a, func(v ssa.Value) bool { return v == rec }) {
+				l = true
+			} else if a == ssa.Value(ovP) {
+				o = true
+			}
+		}
+		return l && o
+	}
+	var remaining *ssa.Phi
+	isRemaining := func(v ssa.Value) bool {
+		ph, ok := v.(*ssa.Phi)
+		if !ok {
+			return false
+		}
+		for _, e := range ph.Edges {
+			if core.Unwrap(e) == ssa.Value(maxP) {
+				remaining = ph
+				return true
+			}
+		}
+		return false
+	}
+	cmpBudget := func(f core.Fact, want token.Token) bool {
 		return core.CmpFact(f, func(op token.Token, x, y ssa.Value) bool {
-			return op == token.LEQ && y == ssa.Value(maxP) && hasAll(x)
+			if op != want {
+				return false
+			}
+			return (y == ssa.Value(maxP) && hasAll(x)) || (isCost(x) && isRemaining(y))
 		})
-	})
+	}
+	fits := core.AnyFact(func(f core.Fact) bool { return cmpBudget(f, token.LEQ) })
 	w := core.InstrGuarded(ap, fits, nil)
 	r.Check(w == nil, rule, name+" fit-check", p.Pos(ap.Pos()), "a record is added only under total + len(record) + per-record overhead <= budget", "a record can be added without its length AND its per-record offset overhead fitting the budget (the reply can exceed one packet): "+p.PathString(w))
 	// running total update
 	okUpd := false
+	if remaining != nil && total == nil {
+		for _, b := range tf.Blocks {
+			for _, in := range b.Instrs {
+				if bo, ok := in.(*ssa.BinOp); ok && bo.Op == token.SUB && bo.X == ssa.Value(remaining) && isCost(bo.Y) && core.FlowsFrom(remaining, map[ssa.Value]bool{bo: true}) {
+					// and the budget is spent in the step that adds the record
+					if bo.Block() == ap.Block() || core.MustPassBefore(bo, func(i2 ssa.Instruction) bool { return i2 == ssa.Instruction(ap) }) == nil {
+						okUpd = true
+					}
+				}
+			}
+		}
+	}
 	if ph, ok := total.(*ssa.Phi); ok {
 		for _, e := range ph.Edges {
 			if core.FlowsFrom(e, map[ssa.Value]bool{}) {
@@ -152,7 +199,7 @@ func checkTruncator(c *Ctx, rule string, tf *ssa.Function) {
 		for i := range b.Succs {
 			fs := core.EdgeFacts(b, i)
 			over := core.AnyFact(func(f core.Fact) bool {
-				return core.CmpFact(f, func(op token.Token, x, y ssa.Value) bool { return op == token.GTR && y == ssa.Value(maxP) && hasAll(x) })
+				return cmpBudget(f, token.GTR)
 			})(fs)
 			if over && reaches(b.Succs[i], ap.Block()) {
 				okStop = false
@@ -200,7 +247,7 @@ func selectorTable(fn *ssa.Function) map[string]int64 {
 func c08(c *Ctx) {
 	p, r := c.P, c.R
 	r.Technique = "value-flow analysis store -> reply in the FINDCONTENT handler; writer/reader agreement of the selector table; numeric packet-budget check on folded constants; structural check of the truncation loop, of the ordering comparator and of the requester exclusion"
-	r.Explanation = "Decides: (R1) the Content field of the inline reply and the argument of the uTP frame encoder in the spawned writer are the very value storage.Get returned for the requested key; each reply branch uses the selector byte the asking side's decoder associates with that message type; the connection id announced is the Send id of the connection the writer goroutine accepts on; (R2) the inline branch is taken only under len(content) <= K with K <= 1280-103-2 and the ENR budgets passed to the truncation are <= 1175 (CONTENT) and <= 1171 (NODES) with per-record overhead 4 = the SSZ offset size; the truncation loop adds a record only if total+len+overhead fits, accounts len+overhead per record and stops at the first misfit (prefix); (R3) the closer-peers list comes from the routing table, is sorted by LogDist(a, id) < LogDist(b, id) against the content id, the requester's record is compared against and removed before truncation; (R4) on the asking side the id dialled is the one decoded from the reply and the bytes returned are the result of the version-dependent frame decoder applied to what was read (encoder/decoder symmetry itself is C19.R2 and C15). Not decided: byte equality end to end, actual datagram sizes (the 103-byte TALKRESP framing is an assumption about the discv5 dependency taken from the repository's own itemisation), loss/reordering."
+	r.Explanation = "Decides: (R1) the Content field of the inline reply and the argument of the uTP frame encoder in the spawned writer are the very value storage.Get returned for the requested key; each reply branch uses the selector byte the asking side's decoder associates with that message type; the connection id announced is the Send id of the connection the writer goroutine accepts on; (R2) the inline branch is taken only under len(content) <= K with K <= 1280-103-2 and the ENR budgets passed to the truncation are <= 1175 (CONTENT) and <= 1171 (NODES) with per-record overhead 4 = the SSZ offset size; the truncation loop adds a record only if total+len+overhead fits, accounts len+overhead per record and stops at the first misfit (prefix); (R3) the closer-peers list comes from the routing table - built from the bucket entries on every call, not from a list kept in a field of the table -, is sorted by LogDist(a, id) < LogDist(b, id) against the content id, the requester's record is compared against and removed before truncation; (R4) on the asking side the id dialled is the one decoded from the reply and the bytes returned are the result of the version-dependent frame decoder applied to what was read (encoder/decoder symmetry itself is C19.R2 and C15). Not decided: byte equality end to end, actual datagram sizes (the 103-byte TALKRESP framing is an assumption about the discv5 dependency taken from the repository's own itemisation), loss/reordering."
 	r.Assumptions = []string{"discv5 maximum packet size 1280 and TALKRESP framing overhead 103 bytes", "SSZ list offsets are 4 bytes", "sort.Slice sorts by the comparator"}
 	r.Floor("R1.value-flow", 4)
 	r.Floor("R1.selectors", 3)
@@ -303,7 +350,7 @@ func c08(c *Ctx) {
 		var encRes ssa.Value
 		core.Calls(cf, func(ci ssa.CallInstruction) {
 			f := core.StaticCalleeFn(ci)
-			if f != nil && core.InModule(f) && f.Signature.Results().Len() == 2 && framesForVersion(f, lebEncode32) {
+			if f != nil && core.InModule(f) && (f.Signature.Results().Len() == 2 || f.Signature.Results().Len() == 1) && framesForVersion(f, lebEncode32) {
 				a := ci.Common().Args
 				data := a[len(a)-1]
 				// the captured content cell (a free variable of the closure bound to the cell holding storage.Get's result)
@@ -325,6 +372,10 @@ func c08(c *Ctx) {
 					}
 				}
 				if call, ok := ci.(*ssa.Call); ok {
+					if f.Signature.Results().Len() == 1 {
+						// the framing function called directly (the version dispatch is written out here)
+						encRes = call
+					}
 					for _, rf := range *call.Referrers() {
 						if ex, ok := rf.(*ssa.Extract); ok && ex.Index == 0 {
 							encRes = ex
@@ -420,9 +471,11 @@ func c08(c *Ctx) {
 							continue
 						}
 						if prev, ok := ap.Call.Args[0].(*ssa.Call); ok && core.CalleeID(prev) == "builtin.append" {
+							// the selector is the byte right before the payload: the only element
+							// appended, or the last of (message code, selector) appended together
 							el := core.VariadicElems(prev.Call.Args[1])
-							if len(el) == 1 {
-								if k, isC := core.ConstInt(el[0]); isC {
+							if len(el) == 1 || len(el) == 2 {
+								if k, isC := core.ConstInt(el[len(el)-1]); isC {
 									got = k
 								}
 							}
@@ -499,6 +552,27 @@ func c08(c *Ctx) {
 			}
 		})
 		r.Check(fromTable, "R3.order-exclusion", cname+" source", p.Pos(cf.Pos()), "candidates are read from the routing table", "the closer-peers list does not come from the routing table")
+		// ... as it is now: the table function that hands out the records builds its list from the
+		// bucket entries on every call; a list kept in a field of the table (a cache) keeps records
+		// that were replaced in place since it was built
+		core.Calls(cf, func(ci ssa.CallInstruction) {
+			tf := core.StaticCalleeFn(ci)
+			if tf == nil || tf.Signature.Recv() == nil || core.TypeName(tf.Signature.Recv().Type()) != "Table" || tf.Signature.Results().Len() != 1 {
+				return
+			}
+			if !strings.HasSuffix(tf.Signature.Results().At(0).Type().String(), "enode.Node") {
+				return
+			}
+			stale := ""
+			for _, ret := range core.Returns(tf) {
+				for _, leaf := range listLeaves(core.ResolveSpill(ret.Results[0])) {
+					if t, f, ok := core.LoadedField(leaf); ok && t == "Table" && f != "buckets" {
+						stale = t + "." + f
+					}
+				}
+			}
+			r.Check(stale == "", "R3.order-exclusion", core.FuncName(tf)+" reads-current-entries", p.Pos(tf.Pos()), "the list is built from the bucket entries on every call", "the records handed out come from "+stale+", a list kept across calls: a record replaced in place (newer ENR of a known node) is still answered in its old version, which is no longer in the routing table")
+		})
 		// comparator
 		okCmp := false
 		detail := "no sort by log-distance to the content id"
@@ -703,7 +777,7 @@ func isResultThroughCell(v ssa.Value, call *ssa.Call) bool {
 func c11(c *Ctx) {
 	p, r := c.P, c.R
 	r.Technique = "must-pass-through (cut) checks of every filter on the replying and on the asking side with operator/constant requirements; numeric budget check on folded constants; agreement of the count limit with the SSZ list limit read from the struct tag"
-	r.Explanation = "Decides presence, polarity and constants of every filter the statement names. Replying side: (R1a) a distance is looked up only if it is <= 256 and not a repeat; (R1b) distance 0 yields the local record and other distances read bucket entries only under !checkLive || isValidatedLive with checkLive = !NoFindnodeLivenessCheck; (R1c) every record that enters the reply list - bucket entries AND the local record - passed CheckRelayIP(asker, record) == nil; (R1d) the count limit is 32, equals the SSZ maximum of Nodes.Enrs, and collection stops at it; (R1e) the byte budget passed to the truncation is <= 1280-103-6 = 1171 with per-record overhead 4 and the truncation loop is sound (shared with C08.R2). Asking side: (R2) a record is returned with nil error only after enode.New (signature), CheckRelayIP(sender, record), UDP port > 1024, log-distance membership when distances were requested (bypass only on distances == nil), and the not-seen test followed by marking it seen; only nil-error records are appended to the result. Not decided: sizes of actual datagrams, the ENR signature scheme itself."
+	r.Explanation = "Decides presence, polarity and constants of every filter the statement names. Replying side: (R1a) a distance is looked up only if it is <= 256 and not a repeat; (R1b) distance 0 yields the local record and other distances read bucket entries only under !checkLive || isValidatedLive with checkLive = !NoFindnodeLivenessCheck; (R1c) every record that enters the reply list - bucket entries AND the local record - passed CheckRelayIP(asker, record) == nil; (R1d) the count limit is 32, equals the SSZ maximum of Nodes.Enrs, and collection stops at it; (R1e) the byte budget passed to the truncation is <= 1280-103-6 = 1171 with per-record overhead 4 and the truncation loop is sound (shared with C08.R2). Asking side: (R2) a record is returned with nil error only after enode.New (signature), CheckRelayIP(sender, record), UDP port > 1024, log-distance membership when distances were requested (bypass only on distances == nil), and the not-seen test followed by marking it seen; only nil-error records are appended to the result. The liveness flag the bucket reader trusts is cleared on every change of an entry's ip or port (shared with C18.R4). Not decided: sizes of actual datagrams, the ENR signature scheme itself."
 	r.Assumptions = []string{"netutil.CheckRelayIP implements the relay-address rule", "enode.New verifies the record signature", "discv5 packet 1280 bytes, TALKRESP framing 103 bytes"}
 	r.Floor("R1.distance-filter", 2)
 	r.Floor("R1.bucket-read", 3)
@@ -720,12 +794,19 @@ func c11(c *Ctx) {
 	}
 	hname := core.FuncName(H)
 	// collector
+	isBucketReader := func(f *ssa.Function) bool {
+		if f == nil || f.Signature.Recv() == nil || core.TypeName(f.Signature.Recv().Type()) != "Table" {
+			return false
+		}
+		rs := f.Signature.Results()
+		return rs.Len() == 1 && strings.HasSuffix(rs.At(0).Type().String(), "]*github.com/ethereum/go-ethereum/p2p/enode.Node") && f.Signature.Params().Len() >= 2
+	}
 	var coll *ssa.Function
 	var collCall *ssa.Call
 	tf, tc := truncatorOf(H)
 	core.Calls(H, func(ci ssa.CallInstruction) {
 		f := core.StaticCalleeFn(ci)
-		if f == nil || !core.InModule(f) || f == tf {
+		if f == nil || !core.InModule(f) || f == tf || isBucketReader(f) {
 			return
 		}
 		rs := f.Signature.Results()
@@ -734,6 +815,14 @@ func c11(c *Ctx) {
 			collCall, _ = ci.(*ssa.Call)
 		}
 	})
+	inl := false // the collection loop written out in the handler itself
+	if coll == nil {
+		core.Calls(H, func(ci ssa.CallInstruction) {
+			if isBucketReader(core.StaticCalleeFn(ci)) && core.InLoop(ci.Block()) {
+				coll, inl = H, true
+			}
+		})
+	}
 	if coll == nil {
 		r.Fail("R1.distance-filter", hname+" collector", p.Pos(H.Pos()), "anchor-unresolved: the function collecting table nodes for the reply")
 		return
@@ -744,7 +833,7 @@ func c11(c *Ctx) {
 	var readCall *ssa.Call
 	core.Calls(coll, func(ci ssa.CallInstruction) {
 		f := core.StaticCalleeFn(ci)
-		if f != nil && f.Signature.Recv() != nil && core.TypeName(f.Signature.Recv().Type()) == "Table" {
+		if f != nil && f.Signature.Recv() != nil && core.TypeName(f.Signature.Recv().Type()) == "Table" && (!inl || isBucketReader(f)) {
 			reader = f
 			readCall, _ = ci.(*ssa.Call)
 		}
@@ -763,22 +852,19 @@ func c11(c *Ctx) {
 	})
 	w := core.InstrGuarded(readCall, le256, nil)
 	r.Check(w == nil, "R1.distance-filter", cname+" distance<=256", p.Pos(readCall.Pos()), "the table is read only for distances <= 256", "an invalid distance (> 256) reaches the table lookup: "+p.PathString(w))
+	var seenSet ssa.Value
 	notSeen := core.AnyFact(func(f core.Fact) bool {
-		if f.Op != token.ILLEGAL || f.Truth {
-			return false
+		set, key, ok := core.SetAbsent(f)
+		if ok && key == dist {
+			seenSet = set
 		}
-		ex, ok := f.V.(*ssa.Extract)
-		if !ok || ex.Index != 1 {
-			return false
-		}
-		lk, ok := ex.Tuple.(*ssa.Lookup)
-		return ok && lk.Index == dist
+		return ok && key == dist
 	})
 	w = core.InstrGuarded(readCall, notSeen, nil)
 	marks := false
 	for _, b := range coll.Blocks {
 		for _, in := range b.Instrs {
-			if mu, ok := in.(*ssa.MapUpdate); ok && mu.Key == dist {
+			if set, key, ok := core.SetAdd(in); ok && key == dist && (seenSet == nil || set == seenSet || core.AccessPath(set) == core.AccessPath(seenSet)) {
 				marks = true
 			}
 		}
@@ -856,6 +942,14 @@ func c11(c *Ctx) {
 			}
 		}
 		r.Check(okCL, "R1.bucket-read", cname+" checkLive-operand", p.Pos(readCall.Pos()), "checkLive = !NoFindnodeLivenessCheck", "the liveness requirement passed to the table is not the negated configuration flag")
+		// "liveness-checked" is about the endpoint that is offered: the flag the reader trusts must
+		// not survive a change of the entry's ip or port (shared with C18.R4)
+		tm := newTableModel(c)
+		for _, w := range tm.nodeW {
+			if !w.Init {
+				endpointChangeClears(c, tm, w, "R1.bucket-read", tm.key(w, "record-replaced"))
+			}
+		}
 	}
 
 	// R1c relay check: every value that can end up in the collector's result passed CheckRelayIP
@@ -886,6 +980,13 @@ func c11(c *Ctx) {
 						if pa, ok := cc.Call.Args[0].(*ssa.Parameter); ok && pa.Parent() == coll {
 							fromAsker = true
 						}
+						if inl {
+							// the asker's address is a parameter of the handler (its IP field)
+							fromAsker = core.Derives(cc.Call.Args[0], func(x ssa.Value) bool {
+								pa, ok := x.(*ssa.Parameter)
+								return ok && pa.Parent() == coll && strings.Contains(pa.Type().String(), "Addr")
+							}, core.DeriveOpts{})
+						}
 						ofNode := core.Derives(cc.Call.Args[1], func(x ssa.Value) bool { return x == node }, core.DeriveOpts{ThroughCalls: true})
 						return fromAsker && ofNode
 					}
@@ -897,8 +998,19 @@ func c11(c *Ctx) {
 		}
 		// the result must be built from those appends only: every return value is nil, the accumulator phi or an append checked above
 		okRes := true
-		for _, ret := range core.Returns(coll) {
-			v := ret.Results[0]
+		var resVals []ssa.Value
+		if inl {
+			if tc != nil {
+				resVals = append(resVals, tc.Call.Args[len(tc.Call.Args)-3])
+			} else {
+				okRes = false
+			}
+		} else {
+			for _, ret := range core.Returns(coll) {
+				resVals = append(resVals, ret.Results[0])
+			}
+		}
+		for _, v := range resVals {
 			if core.IsNilConst(v) {
 				continue
 			}
@@ -925,8 +1037,35 @@ func c11(c *Ctx) {
 
 	// R1d count limit
 	{
-		lim, isC := core.ConstInt(collCall.Call.Args[len(collCall.Call.Args)-1])
-		r.Check(isC && lim == 32, "R1.count-limit", hname+" limit", p.Pos(collCall.Pos()), "at most 32 records are collected", fmt.Sprintf("the record limit passed is %d, the property states 32", lim))
+		var lim int64
+		var isC bool
+		limPos := p.Pos(H.Pos())
+		var nodesAcc ssa.Value // written-out form: the list the relay-checked appends build
+		if inl {
+			// the limit is the constant the length of the collected list is compared with on the
+			// edge that leaves the collection loops
+			for _, b := range coll.Blocks {
+				for i := range b.Succs {
+					for _, f := range core.EdgeFacts(b, i) {
+						core.CmpFact(f, func(op token.Token, x, y ssa.Value) bool {
+							k, kc := core.ConstInt(y)
+							if (op == token.GEQ || op == token.EQL) && kc && core.InLoop(b) && !core.InLoop(b.Succs[i]) && core.IsLenOf(x, func(v ssa.Value) bool {
+								ap, ok := v.(*ssa.Call)
+								return ok && core.CalleeID(ap) == "builtin.append" && strings.HasSuffix(ap.Type().String(), "enode.Node")
+							}) {
+								lim, isC = k, true
+								nodesAcc = x
+							}
+							return false
+						})
+					}
+				}
+			}
+		} else {
+			lim, isC = core.ConstInt(collCall.Call.Args[len(collCall.Call.Args)-1])
+			limPos = p.Pos(collCall.Pos())
+		}
+		r.Check(isC && lim == 32, "R1.count-limit", hname+" limit", limPos, "at most 32 records are collected", fmt.Sprintf("the record limit passed is %d, the property states 32", lim))
 		// SSZ max of Nodes.Enrs
 		sszMax := int64(-1)
 		if tn, ok := p.Pkg("portalwire").Types.Scope().Lookup("Nodes").(*types.TypeName); ok {
@@ -941,13 +1080,19 @@ func c11(c *Ctx) {
 		}
 		r.Check(sszMax == lim, "R1.count-limit", "Nodes.Enrs ssz-max", "-", fmt.Sprintf("SSZ list limit %d equals the collection limit", sszMax), fmt.Sprintf("SSZ list limit of Nodes.Enrs is %d but %d records are collected", sszMax, lim))
 		// collection stops at the limit
-		limP := coll.Params[len(coll.Params)-1]
-		stop := false
+		stop := inl && nodesAcc != nil
+		var limP ssa.Value
+		if !inl {
+			limP = coll.Params[len(coll.Params)-1]
+		}
 		for _, b := range coll.Blocks {
+			if inl {
+				break
+			}
 			for i := range b.Succs {
 				for _, f := range core.EdgeFacts(b, i) {
 					if core.CmpFact(f, func(op token.Token, x, y ssa.Value) bool {
-						return (op == token.GEQ || op == token.EQL) && y == ssa.Value(limP) && core.IsLenOf(x, func(ssa.Value) bool { return true })
+						return (op == token.GEQ || op == token.EQL) && y == limP && core.IsLenOf(x, func(ssa.Value) bool { return true })
 					}) {
 						if _, isRet := b.Succs[i].Instrs[len(b.Succs[i].Instrs)-1].(*ssa.Return); isRet {
 							stop = true
@@ -970,7 +1115,11 @@ func c11(c *Ctx) {
 		r.Check(c2 && ov == 4, "R1.byte-budget", hname+" per-enr-overhead", p.Pos(tc.Pos()), "per-record overhead 4", fmt.Sprintf("per-record overhead is %d, SSZ offsets take 4 bytes", ov))
 		checkTruncator(c, "R1.byte-budget", tf)
 		// what is truncated is the collector's result and what is sent is the truncator's result
-		okIn := tc.Call.Args[len(tc.Call.Args)-3] == ssa.Value(collCall)
+		okIn := collCall != nil && tc.Call.Args[len(tc.Call.Args)-3] == ssa.Value(collCall)
+		if inl {
+			// checked above: the list handed to the truncation is built only from relay-checked appends
+			okIn = true
+		}
 		r.Check(okIn, "R1.byte-budget", hname+" truncates-collected", p.Pos(tc.Pos()), "the truncation is applied to the collected nodes", "the truncation is not applied to the collected list")
 		okOut := false
 		for _, b := range H.Blocks {
@@ -1063,22 +1212,15 @@ func c11(c *Ctx) {
 	})
 	seenP := V.Params[4]
 	checkGate("not-repeat", "accepted only if its id was not seen before in this reply", "a repeated record can be accepted", core.AnyFact(func(f core.Fact) bool {
-		if f.Op != token.ILLEGAL || f.Truth {
-			return false
-		}
-		ex, ok := f.V.(*ssa.Extract)
-		if !ok || ex.Index != 1 {
-			return false
-		}
-		lk, ok := ex.Tuple.(*ssa.Lookup)
-		return ok && lk.X == ssa.Value(seenP)
+		set, _, ok := core.SetAbsent(f)
+		return ok && set == ssa.Value(seenP)
 	}))
 	// marks seen before success
 	{
 		w := core.CutReach(core.CutSpec{Fn: V,
 			Cut: func(b *ssa.BasicBlock, i int) bool {
 				for _, in := range b.Succs[i].Instrs {
-					if mu, ok := in.(*ssa.MapUpdate); ok && mu.Map == ssa.Value(seenP) {
+					if set, _, ok := core.SetAdd(in); ok && set == ssa.Value(seenP) {
 						return true
 					}
 				}
@@ -1086,7 +1228,7 @@ func c11(c *Ctx) {
 			},
 			Target: func(prev, b *ssa.BasicBlock) bool {
 				for _, in := range b.Instrs {
-					if mu, ok := in.(*ssa.MapUpdate); ok && mu.Map == ssa.Value(seenP) {
+					if set, _, ok := core.SetAdd(in); ok && set == ssa.Value(seenP) {
 						return false
 					}
 				}
@@ -1172,4 +1314,50 @@ func unsortedReturn(fn *ssa.Function) []*ssa.BasicBlock {
 		}
 	}
 	return nil
+}
+
+// listLeaves: the values a slice value is assembled from, looking through phis, append (base and
+// appended elements), slices.* helpers and re-slicing.
+func listLeaves(v ssa.Value) []ssa.Value {
+	var out []ssa.Value
+	seen := map[ssa.Value]bool{}
+	var rec func(v ssa.Value)
+	rec = func(v ssa.Value) {
+		v = core.Unwrap(v)
+		if v == nil || seen[v] {
+			return
+		}
+		seen[v] = true
+		switch x := v.(type) {
+		case *ssa.Phi:
+			for _, e := range x.Edges {
+				rec(e)
+			}
+		case *ssa.Slice:
+			rec(x.X)
+		case *ssa.Call:
+			id := core.CalleeID(x)
+			switch {
+			case id == "builtin.append":
+				rec(x.Call.Args[0])
+				if el := core.VariadicElems(x.Call.Args[1]); len(el) > 0 {
+					for _, e := range el {
+						out = append(out, e)
+					}
+				} else {
+					rec(x.Call.Args[1])
+				}
+			case strings.HasPrefix(id, "slices."):
+				if len(x.Call.Args) > 0 {
+					rec(x.Call.Args[0])
+				}
+			default:
+				out = append(out, v)
+			}
+		default:
+			out = append(out, v)
+		}
+	}
+	rec(v)
+	return out
 }
